@@ -168,3 +168,36 @@ def two_maps(a1: int, b1: int, tick: int, R1: int, R2: int, free_first: bool, vi
         if not free_first:
             ok = ok and ask(A).us == want([0, a1], [BPMS[0], BPMS[1]], R1)
     return done(ok)
+
+
+# ---------------------------------------------------------------------------------------------
+_NEG = None
+
+
+def _neg_values():
+    from fractions import Fraction
+    return [-1, -0.5, -1e-9, Fraction(-1, 3), -0.999999, -7, -2.5, Fraction(-5, 2), -(2 ** 70), float("-inf")]
+
+
+def negative_tick_forms(k: int, hint: int, via: int) -> bool:
+    """
+    pre: 0 <= k < 10 and 0 <= hint <= 2 and 0 <= via <= 1
+    post: _
+    """
+    # "no query for a negative tick ever returns a time": negative positions in every numeric form a
+    # caller may hold (ints, floats, fractions - e.g. computed as a difference); rejected, never timed
+    v = H.pick(_neg_values(), k)
+    evs = [BPMEvent(tick=0, timestamp=AbsTime(0), bpm=BPMS[0], _proximal_bpm_event_index=0),
+           BPMEvent(tick=100, timestamp=AbsTime(700), bpm=BPMS[1], _proximal_bpm_event_index=1)]
+    be = BPMEvents(events=evs, resolution=192)
+    with H.abstract_time(Clock("linear", mult={BPMS[0]: 7, BPMS[1]: 3})):
+        try:
+            if via == 0:
+                be.timestamp_at_tick(v, start_iteration_index=hint)
+            else:
+                be.timestamp_at_tick_no_optimize_return(v)
+        except (ValueError, TypeError, OverflowError):
+            return done(True)
+        except H.Poison:
+            return done(True)          # the value reached the (stubbed) kernel as a distance: not a returned time either
+    return done(False)
